@@ -245,6 +245,7 @@ def main(ctx):
         ctx.notes.append("scram-pbkdf2: on_challenge() raised in all %d exchanges; proof / server "
                          "signature fault enumeration for this KDF could not run" %
                          c["scram-pbkdf2:cases"])
+    ctx.require("session-cra:two_sessions")
     ctx.require("session-scram:joined:tx")
     ctx.require("session-scram:joined:aio")
     ctx.require("session-scram:refused", 2 * 40)
@@ -949,7 +950,18 @@ class _FakeTransport:
     abort = close
 
 
+class _Observed(Exception):
+    """raised inside a harness helper for something the implementation did (a violation, not a harness bug)"""
+
+
 def _session_scram(o, R, auth, a):
+    try:
+        return _session_scram_(o, R, auth, a)
+    except _Observed as e:
+        o.bad(e.args[0], "fw=%s %s" % (a["txaio"], e.args[1]), dict(a))
+
+
+def _session_scram_(o, R, auth, a):
     """A SCRAM client (a real Session with an AuthScram authenticator) joins only on a WELCOME that
     carries the correct server signature."""
     from autobahn.wamp import message, role, types
@@ -992,8 +1004,12 @@ def _session_scram(o, R, auth, a):
         sess.onOpen(tr)
         spin()
         hello = tr.sent[-1]
-        if not isinstance(hello, message.Hello) or hello.authmethods != ["scram"]:
+        if not isinstance(hello, message.Hello):
             raise RuntimeError("unexpected first message %r" % (hello,))
+        if hello.authmethods != ["scram"] or hello.authid != authid:
+            raise _Observed("C19|session-shared-authenticators|hello-offers-foreign-methods",
+                            "a session configured with one scram authenticator for %r sent HELLO authmethods=%r "
+                            "authid=%r" % (authid, hello.authmethods, hello.authid))
         cnonce = hello.authextra["nonce"]
         snonce = cnonce + R.b64(sn_raw)
         salt_b64 = R.b64(salt)
@@ -1063,6 +1079,44 @@ def _session_scram(o, R, auth, a):
                     what, name, tr.sent[n0:]), ra)
             else:
                 o.stats["session-scram:refused"] += 1
+    # ---- several sessions in one process, each with its own authenticator for the same method: every
+    # session answers its CHALLENGE with ITS credentials, a session without authenticators offers none
+    sessions = []
+    for secret_ in ("secret-A", "secret-B\u00fc"):
+        sx = S(types.ComponentConfig("realm1"))
+        try:
+            sx.add_authenticator(auth.create_authenticator("wampcra", authid=authid, secret=secret_))
+        except Exception as e:
+            o.bad("C19|session-shared-authenticators|add-authenticator-raised",
+                  "%s: add_authenticator() on a fresh session raised %r" % (what, e), ra)
+            continue
+        sessions.append((sx, secret_))
+    plain = S(types.ComponentConfig("realm1"))
+    trp = _FakeTransport()
+    plain.onOpen(trp)
+    spin()
+    o.evals += 1
+    hp = [m for m in trp.sent if isinstance(m, message.Hello)]
+    if len(hp) != 1 or hp[0].authmethods or hp[0].authid:
+        o.bad("C19|session-shared-authenticators|hello-of-plain-session",
+              "%s: a session WITHOUT authenticators, created after two sessions with a wampcra authenticator, sent "
+              "HELLO authmethods=%r authid=%r" % (what, hp and hp[0].authmethods, hp and hp[0].authid), ra)
+    for sx, secret_ in sessions:
+        trx = _FakeTransport()
+        sx.onOpen(trx)
+        spin()
+        extra = {"challenge": "{\"nonce\": \"n-%s\"}" % secret_[-1]}
+        sx.onMessage(message.Challenge("wampcra", dict(extra)))
+        spin()
+        o.evals += 1
+        o.stats["session-cra:two_sessions"] += 1
+        au_ = [m for m in trx.sent if isinstance(m, message.Authenticate)]
+        exp = R.cra_signature(secret_, extra)
+        if len(au_) != 1 or au_[0].signature != exp:
+            o.bad("C19|session-shared-authenticators|signature-of-other-session",
+                  "%s: two sessions with different wampcra secrets in one process; the session configured with %r "
+                  "answered %r, the reference signature for its own secret is %s" % (
+                      what, secret_, au_ and au_[0].signature, exp), ra)
     # outside the statement (observe_at: authenticator return values; WELCOME naming the scram method):
     # recorded, not judged - a WELCOME that names no / another authmethod after the SCRAM exchange
     sess, tr, _, _ = until_welcome()
